@@ -221,4 +221,50 @@ example (n : String) (r r2 : Range) (e : Expr) :
     refsOfExpr (.call e [] [some "k"] [.name n r] r2) ≠ refsOfExpr e := by
   simp [refsOfExpr, refsOfExprs]
 
+/-- **C17 (parameters).** No parameter of a test function is ever flagged in its body — positional, keyword-only,
+    with or without a default value (a defaulted parameter is never a fixture REQUEST, but it is a parameter of the
+    enclosing function all the same), and neither are `self` and `request`. -/
+theorem C17_test_parameters_never (f : Path) (modNames : List String) (name : String) (args : Args)
+    (body : List Stmt) (r : Range) (avail : String → Bool) (b : BodyScan)
+    (hb : Event.scan b ∈ testEvents f modNames name args body r) :
+    ∀ u ∈ scanFindings f b avail, u.name ≠ "self" ∧ u.name ≠ "request" ∧ ∀ a ∈ args.all, u.name ≠ a.name := by
+  intro u hu
+  obtain ⟨hnd, _⟩ := C17_never f b avail u hu
+  unfold testEvents at hb
+  split at hb
+  · rw [List.mem_append] at hb
+    rcases hb with hb | hb
+    · rw [List.mem_map] at hb
+      obtain ⟨a, _, ha⟩ := hb
+      simp [argUsage] at ha
+    · simp only [List.mem_singleton, Event.scan.injEq] at hb
+      subst hb
+      simp only [List.mem_append, List.mem_cons, List.mem_map, not_or] at hnd
+      refine ⟨hnd.1.1, hnd.1.2.1, ?_⟩
+      intro a ha h; exact hnd.2 ⟨a, ha, h.symm⟩
+  · simp at hb
+
+/-- the same for a fixture function, whose own name is not flagged either -/
+theorem C17_fixture_parameters_never (f : Path) (lines : List Chars) (modNames : List String) (name : String)
+    (deco : Expr) (args : Args) (returns : Option Expr) (body : List Stmt) (r : Range) (doc : Option String)
+    (avail : String → Bool) (b : BodyScan)
+    (hb : Event.scan b ∈ fixtureEvents f lines modNames name deco args returns body r doc) :
+    ∀ u ∈ scanFindings f b avail, u.name ≠ name ∧ ∀ a ∈ args.all, u.name ≠ a.name := by
+  intro u hu
+  obtain ⟨hnd, _⟩ := C17_never f b avail u hu
+  unfold fixtureEvents at hb
+  simp only [List.mem_append, List.mem_singleton, List.mem_map, Event.scan.injEq, reduceCtorEq, false_or] at hb
+  rcases hb with hb | hb
+  · obtain ⟨a, _, ha⟩ := hb
+    simp [argUsage] at ha
+  · subst hb
+    simp only [List.mem_append, List.mem_cons, List.mem_map, not_or] at hnd
+    refine ⟨hnd.1.2.2.1, ?_⟩
+    intro a ha h; exact hnd.2 ⟨a, ha, h.symm⟩
+
+/-- non-vacuity: a test with a defaulted parameter used in its body, a fixture of that name being available -/
+example : scanFindings ["t.py"]
+    ⟨"test_a", 1, ["self", "request"] ++ ["retries"], [], [⟨"retries", 2, 4, 11⟩, ⟨"other", 3, 4, 9⟩]⟩ (fun _ => true)
+    = [⟨"other", ["t.py"], 3, 4, 9, "test_a", 1⟩] := by decide
+
 end PLS
